@@ -53,7 +53,17 @@ def check_type(value: Any, attr_type: Type) -> bool:
             return any(check_type(value, type_) for type_ in attr_type.__args__)
 
         if attr_type.__origin__ in (Literal, LiteralExtension):
-            return value in attr_type.__args__
+            # A literal choice is a value *of its type*: `True` and `1.0` are
+            # equal to `1` but are not `Literal[1]`.
+            return any(
+                value == choice
+                and (
+                    type(value) is type(choice)
+                    or isinstance(value, type(choice))
+                    and not isinstance(value, bool)
+                )
+                for choice in attr_type.__args__
+            )
 
         if (
             isinstance(attr_type, _GenericAlias)
